@@ -795,6 +795,45 @@ def run(chk):
                'the same grid with kroad cycling through 1.8 / 1.0 / 0.6 / 2.5 / 0.25 W/m-K and croad through 1.6e6 / '
                '2.4e6 / 2e6 J/m3-K: slice by slice the pavement carries (kroad, croad) and everything below it is soil '
                'in every property (k = 1, c = 2e6, 0.05 m, Material "soil")', mismatches=bad5, branches=compf)
+    # --- round 8: the same float-level oracle on files whose ground depths are NOT the standard 0.5 / 2 / 4 m, so that
+    # (depth - pavement) / 0.05 is a whole number of slices only up to rounding (0.55 - 0.5, 0.8 - 0.5, 0.85 - 0.3 ...)
+    bad6, n6 = 0, 0
+    for di, dset in enumerate([[0.55, 2.0, 4.0], [0.8, 2.2, 4.4], [0.3, 0.85, 1.35], [0.65, 1.15, 3.3], [0.7, 0.9, 2.45]]):
+        rows6 = S.copy_rows(sgp_rows)
+        rows6[3] = S.ground_line([repr(d) for d in dset])
+        f6 = S.save_epw(rows6, os.path.join(work, 'pad_depths_%d.epw' % di))
+        for droad in ([0.5, 0.25, 0.05, 0.3] if chk.tier != 'thorough' else [0.05 * k for k in range(1, 14)]):
+            if droad > dset[-1]:
+                continue
+            m = realuwg.UWG.from_param_file(os.path.join(repo, PARAM), epw_path=f6)
+            m.nday, m.droad = 1, droad
+            with core.quiet():
+                m.generate()
+            pavement = 0.05 * int(math.ceil(droad / 0.05)) if droad > 0.05 else droad
+            want_idx = next((i for i, d in enumerate(dset) if d > pavement - 1e-9), None)
+            for el, idxname in ((m.road, '_soilindex1'), (m.rural, '_soilindex2')):
+                n6 += 1
+                idx, tot = getattr(m, idxname), sum(el.layer_thickness_lst)
+                ok = idx == want_idx
+                if ok:
+                    gap_layers = (dset[idx] - pavement) / 0.05
+                    ok = dset[idx] - 1e-9 <= tot < dset[idx] + 0.05 - 1e-9
+                    if abs(gap_layers - round(gap_layers)) < 1e-6:
+                        ok = ok and abs(tot - dset[idx]) < 1e-9
+                if not ok:
+                    bad6 += 1
+                    if bad6 <= 2:
+                        chk.violation('impl-violation', 'padding oracle (T3/T4) on the real float generate(), rural file with '
+                                      'non-standard ground depths',
+                                      case={'droad': droad, 'element': el.name, 'ground depths of the rural file': dset,
+                                            'rural file': 'shipped Singapore file with header line 4 = s1_util.ground_line(depths)'},
+                                      observed={'index': idx, 'column_depth': tot, 'layers': len(el.layer_thickness_lst)},
+                                      expected='index %s, column ending at depth %s' % (want_idx, dset[want_idx]))
+    chk.direct('padding-oracle(real float generate, non-standard ground depths)', n6, n6,
+               'real (double precision) generate() on copies of the Singapore file whose three ground depths are 0.55/2/4, '
+               '0.8/2.2/4.4, 0.3/0.85/1.35, 0.65/1.15/3.3, 0.7/0.9/2.45 m x pavements of 0.05..0.5 m: road and rural columns '
+               'end at the first depth at or below the pavement, exactly (1e-9) when the gap is a whole number of 5 cm slices '
+               'up to rounding - a slice count taken from a float quotient over-counts there', mismatches=bad6)
     offgrid_float_tie(chk, realuwg, sgp_rows, work)
     equal_depth_float_tie(chk, realuwg, work)
     chk.assumptions.append('float effects in ceil(droad/0.05) and depth > sum(thickness) are outside the exact '
